@@ -880,6 +880,47 @@ class G:
                     for q in ("nv", "pv", "nav", "pav"):
                         self.emit("%s %s %d" % (q, x, k * CH + t))
                 self.count("nbr:fixed-run-comb-top")
+        # (a4) neighbour queries on RESULTS: unions of run chunks whose runs touch end to start (every form and order), and a range
+        #      removal that takes everything the first chunk of the range holds
+        for k in (3, 65535):
+            xr, yr = self.fresh("nb"), self.fresh("nb")
+            self.emit("new %s" % xr); self.emit("addr %s %d %d" % (xr, k * CH, k * CH + 300)); self.emit("addr %s %d %d" % (xr, k * CH + 600, k * CH + 900)); self.emit("opt %s" % xr)
+            self.emit("new %s" % yr); self.emit("addr %s %d %d" % (yr, k * CH + 250, k * CH + 600)); self.emit("addr %s %d %d" % (yr, k * CH + 2000, k * CH + 2600)); self.emit("opt %s" % yr)
+            for form in ("or-xy", "or-yx", "ior-x", "ior-y", "fastor-yx", "paror-yx"):
+                z = self.fresh("nb")
+                if form == "or-xy":
+                    self.emit("or %s %s %s" % (z, xr, yr))
+                elif form == "or-yx":
+                    self.emit("or %s %s %s" % (z, yr, xr))
+                elif form == "ior-x":
+                    self.emit("clone %s %s" % (z, xr)); self.emit("ior %s %s" % (z, yr))
+                elif form == "ior-y":
+                    self.emit("clone %s %s" % (z, yr)); self.emit("ior %s %s" % (z, xr))
+                elif form == "fastor-yx":
+                    self.emit("fastor %s %s %s" % (z, yr, xr))
+                else:
+                    self.emit("paror %s 2 %s %s" % (z, yr, xr))
+                for t in (0, 100, 249, 250, 299, 300, 301, 598, 599, 600, 601, 899, 900, 901, 1999, 2000, 2599, 2600):
+                    for q in ("nav", "pav", "nv", "pv"):
+                        self.emit("%s %s %d" % (q, z, k * CH + t))
+            self.count("nbr:fixed-results-of-touching-run-unions")
+        for kind in ("A", "R", "B"):
+            x = self.fresh("nb")
+            self.emit("new %s" % x)
+            self.emit("of %s %d %d" % (x, 2 * CH + 200, 7 * CH + 20))
+            if kind == "A":
+                self.emit("of %s %d %d %d" % (self.fresh("nb"), 1, 2, 3)); self.emit("addmany %s %d %d %d" % (x, 4 * CH + 500, 4 * CH + 600, 4 * CH + 65535))
+            elif kind == "R":
+                self.emit("addr %s %d %d" % (x, 4 * CH + 500, 4 * CH + 9000))
+            else:
+                self.emit("addstride %s %d 3 9000" % (x, 4 * CH + 500))
+            self.emit("addr %s %d %d" % (x, 5 * CH, 5 * CH + 10)); self.emit("addr %s %d %d" % (x, 6 * CH + 10, 6 * CH + 20))
+            self.emit("remr %s %d %d" % (x, 4 * CH + 400, 6 * CH + 15))      # everything chunk 4 holds lies at or above the range start
+            for t in (3 * CH, 4 * CH, 4 * CH + 399, 4 * CH + 700, 5 * CH, 6 * CH + 3, 6 * CH + 14, 6 * CH + 15, 7 * CH):
+                for q in ("nv", "pv", "nav", "pav"):
+                    self.emit("%s %s %d" % (q, x, t))
+            self.emit("wf %s" % x)
+            self.count("nbr:fixed-after-range-removal-emptying-first-chunk")
         # (b) a completely full chunk stored as bitmap / run / after in-place xor, between a chunk solid to its upper edge and a
         #     chunk that starts with a solid prefix; also as the last chunk 0xFFFF
         for k in (19, 20, 0xB0C4, 0xFFFD, 0xFFFE):
@@ -1213,6 +1254,28 @@ def _sizeb(g, scale):
                 g.emit("size %s" % z); g.emit("wf %s" % z)
                 g.emit("add %s %d" % (z, 5 * CH + 1)); g.emit("size %s" % z)
             g.count("sizeb:inplace-and-to-%d" % target)
+    # an array chunk whose storage was enlarged by an in-place union (the union allocates twice the combined size), then a range / bulk
+    # insertion that takes it past 4096 values within that capacity; also through the many-way unions and the offset join
+    for n1, n2, radd in ((1500, 1500, 2000), (1000, 1000, 2200), (2000, 2000, 200), (700, 700, 3000)):
+        for form in ("ior", "fastor3", "ior-addmany"):
+            a, b = g.fresh("ag"), g.fresh("ag")
+            g.emit("new %s" % a); g.emit("addstride %s %d 20 %d" % (a, 6 * CH + 1, n1))
+            g.emit("new %s" % b); g.emit("addstride %s %d 20 %d" % (b, 6 * CH + 8, n2))
+            z = a
+            if form == "fastor3":
+                c = g.fresh("ag"); z = g.fresh("ag")
+                g.emit("of %s %d %d" % (c, 6 * CH + 3, 6 * CH + 40003))
+                g.emit("fastor %s %s %s %s" % (z, a, b, c))
+            else:
+                g.emit("ior %s %s" % (a, b))
+            g.emit("size %s" % z)
+            if form == "ior-addmany":
+                g.emit("addmanyfrom %s %d %d 1" % (z, 6 * CH + 42000, radd))
+            else:
+                g.emit("addr %s %d %d" % (z, 6 * CH + 42000, 6 * CH + 42000 + radd))
+            g.emit("size %s" % z); g.emit("wf %s" % z)
+            g.emit("add %s %d" % (z, 6 * CH + 65000)); g.emit("size %s" % z); g.emit("wf %s" % z)
+        g.count("sizeb:array-grown-by-union-then-range")
     # bitmaps built from dense words whose LAST chunk is partial (fewer than 1024 words) and holds few / ~4 per word / many values
     for words in ("3fffffff*100", "ffffffffffffffff*2048.ff*300", "1*50", "1f*820", "ffff*256", "ffffffffffffffff*1024.ffffffffffffffff*65",
                   "7*1000", "ffffffffffffffff*63.1", "0*1024.f*400"):
